@@ -19,7 +19,7 @@ def demo_cmd(prog, src=None, exe=None, extra=None):
     cxx = "mpicxx" if mpi else "g++"
     src = src or os.path.join(lib.REPO, "src", nm + ".cpp")
     exe = exe or os.path.join(lib.BUILD, "c11_demo_" + prog)
-    cmd = [cxx, "-std=c++14", OPT, "-D" + lib.GUARD] + (["-DVERIF_WITH_MPI"] if mpi else []) + list(extra or []) + \
+    cmd = [cxx, "-std=c++14", OPT, "-DNDEBUG", "-D" + lib.GUARD] + (["-DVERIF_WITH_MPI"] if mpi else []) + list(extra or []) + \
           ["-I" + os.path.join(lib.ROOT, "harness", "cfg"), "-I" + os.path.join(lib.REPO, "include"), "-o", exe, src,
            "-lboost_program_options", "-lboost_timer", "-lboost_thread"] + \
           (["-lboost_mpi", "-lboost_serialization"] if mpi else []) + ["-ltbb", "-lpthread"]
